@@ -68,7 +68,45 @@ def check(ctx: Ctx) -> str:
     rc = repo.func("runtime:Context.__init__")
     s = ast.unparse(rc.node)
     ctx.check("self.vars: dict[str, t.Any] = {}" in s and "self.exported_vars: set[str] = set()" in s and "self.blocks = {k: [v] for k, v in blocks.items()}" in s, "Context:fresh-state", "runtime:Context.__init__", "per-render state", "vars, exported_vars and the block stacks must be fresh objects per context (the template's blocks dict is shared between renders)", rc.loc())
+    scoped_revert_rule(ctx, "R5")
     return __doc__ or ""
+
+
+def scoped_revert_rule(ctx: Ctx, rid: str) -> None:
+    """The context of a memoised template module outlives the render that uses its macros
+    (Template._module), so a *scoped* change of context.eval_ctx has to be undone on every
+    exit - a render failing inside the block must not change what later renders see."""
+    from ..emitrules import get_paths
+    from ..emitrules import reparse
+
+    ctx.rule(rid, "(skeletons) scoped eval-context changes are exception safe: everything emitted between `<tmp> = context.eval_ctx.save()` and `context.eval_ctx.revert(<tmp>)` lies in a try whose finally holds the revert")
+    res = get_paths(ctx, ["visit_ScopedEvalContextModifier"])
+    n = 0
+    for p, sk in res["visit_ScopedEvalContextModifier"]:
+        if p.outcome != "normal" or sk.error:
+            continue
+        tree = reparse(sk, "visit_ScopedEvalContextModifier", "stmt")
+        if tree is None:
+            continue
+        n += 1
+        body = list(tree.body)  # type: ignore[attr-defined]
+        if len(body) == 1 and isinstance(body[0], (ast.FunctionDef, ast.AsyncFunctionDef)) and body[0].name == "__w__":
+            body = list(body[0].body)  # statement skeletons are parsed inside a wrapper function
+        saves = [i for i, st in enumerate(body) if isinstance(st, ast.Assign) and ast.unparse(st.value) == "context.eval_ctx.save()"]
+        ok = False
+        why = "no save found"
+        if len(saves) == 1:
+            tmp = ast.unparse(body[saves[0]].targets[0])  # type: ignore[attr-defined]
+            rest = body[saves[0] + 1:]
+            why = f"after the save the visitor emits {[type(x).__name__ for x in rest]}"
+            if len(rest) == 1 and isinstance(rest[0], ast.Try) and not rest[0].handlers:
+                fin = [ast.unparse(x) for x in rest[0].finalbody]
+                ok = fin == [f"context.eval_ctx.revert({tmp})"]
+                why = f"finally holds {fin}"
+        ctx.check(ok, f"scoped:{n}", "compiler:CodeGenerator.visit_ScopedEvalContextModifier", "revert not in a finally covering the block",
+                  f"{why}: an exception raised inside `{{% autoescape %}}...` in a macro of an imported template leaves the memoised module's eval context modified - every later render using that module is escaped differently\n{sk.text[:300]}",
+                  "src/jinja2/compiler.py", detail={"skeleton": sk.text[:300]} if n == 1 else None)
+    ctx.floor("visit_ScopedEvalContextModifier skeletons", n, 2)
 
 
 def shared_state_rule(ctx: Ctx, rid: str) -> None:
